@@ -212,13 +212,15 @@ impl SubSocket {
 #[async_trait]
 impl Socket for SubSocket {
     fn with_options(options: SocketOptions) -> Self {
-        let fair_queue = FairQueue::new(true);
+        let mut fair_queue = FairQueue::new(true);
+        let backend = Arc::new(SubSocketBackend::with_options(
+            Some(fair_queue.inner()),
+            SocketType::SUB,
+            options,
+        ));
+        crate::backend::forget_ended_peers(&mut fair_queue, &backend);
         Self {
-            backend: Arc::new(SubSocketBackend::with_options(
-                Some(fair_queue.inner()),
-                SocketType::SUB,
-                options,
-            )),
+            backend,
             fair_queue,
             binds: HashMap::new(),
         }
